@@ -316,7 +316,7 @@ def parse_dump_records(path, var):
     txt = open(path).read()
     states = re.split(r"^State \d+:\s*$", txt, flags=re.M)[1:]
     rec = re.compile(r"\[([^\[\]]*)\]")
-    fld = re.compile(r"(\w+)\s*\|->\s*(\"[^\"]*\"|-?\d+|TRUE|FALSE)")
+    fld = re.compile(r"(\w+)\s*\|->\s*(\"[^\"]*\"|-?\d+|TRUE|FALSE|<<[-\d,\s]*>>)")
     for st in states:
         m = re.search(r"^(?:/\\ )?%s = (.*?)(?=^(?:/\\ )?\w+ = |\Z)" % re.escape(var), st, flags=re.M | re.S)
         body = m.group(1) if m else ""
@@ -326,6 +326,8 @@ def parse_dump_records(path, var):
             for k, v in fld.findall(r):
                 if v.startswith('"'):
                     d[k] = v[1:-1]
+                elif v.startswith("<<"):
+                    d[k] = [int(x) for x in v[2:-2].split(",") if x.strip()]
                 elif v in ("TRUE", "FALSE"):
                     d[k] = v == "TRUE"
                 else:
